@@ -190,7 +190,8 @@ func (g *progGen) scopedStmt() string {
 	case 6:
 		s = fmt.Sprintf("for %s := 0; %s < 2; %s++ { for %s := 0; %s < 2; %s++ { %s } }", a, a, a, b, b, b, acc(a+" * 2 + "+b))
 	default:
-		s = fmt.Sprintf("switch %s := %s; %s %% 2 { case 0: %s; default: %s }", a, g.intExpr(1), a, acc(a), acc(a+" + 7"))
+		// (goatlang has no `switch init; tag` form: the scoped variable comes from an enclosing if)
+		s = fmt.Sprintf("if %s := %s; %s >= 0 - 1000 { switch %s %% 2 { case 0: %s; default: %s } }", a, g.intExpr(1), a, a, acc(a), acc(a+" + 7"))
 	}
 	return s + "; host.Obs(" + fmt.Sprintf("%q", g.id("g")) + ", " + tg + ")"
 }
